@@ -12,7 +12,7 @@ from ..engine import cfg as cfgmod, typestate
 from ..engine.facts import dotted, const, src, walk_func, enclosing_stmt, ancestors
 from . import skeletons as sk
 from ..engine import pattern as P
-from .common import calls, stmt_nodes, norm_successors, contains, raise_names, pn, access_paths
+from .common import calls, stmt_nodes, norm_successors, contains, raise_names, pn, access_paths, assigned_from
 from . import c16  # render-isolation is registered there for C13 as well
 
 DEF_CONSTRUCTS = ["write_render_callable", "write_inline_def"]
@@ -233,9 +233,10 @@ def handlers(ctx):
     ex = db.func("runtime._exec_template")
     hs = [h for n in walk_func(ex) if isinstance(n, ast.Try) for h in n.handlers]
     ctx.require(hs, "_exec_template has no except clause (anchor)")
+    etv = assigned_from(ex, "%s._with_template" % pn(ex, 1))
     for h in hs:
         cs = [c for c in ast.walk(h) if isinstance(c, ast.Call) and dotted(c.func) == "_render_error"]
-        ctx.check(bool(cs) and len(cs[0].args) == 3 and src(cs[0].args[0]) == "template" and src(cs[0].args[1]) == "context", "exec.delegates:%s" % (src(h.type) if h.type else "bare"), db.where(h), "except clause does not delegate to _render_error(template, context, error)", "delegates to _render_error")
+        ctx.check(bool(cs) and len(cs[0].args) == 3 and src(cs[0].args[0]) in etv and src(cs[0].args[1]) == pn(ex, 1), "exec.delegates:%s" % (src(h.type) if h.type else "bare"), db.where(h), "except clause does not delegate to _render_error(template, context, error)", "delegates to _render_error")
     gtest = [n for n in walk_func(ex) if isinstance(n, ast.If)]
     ctx.check(any("format_exceptions" in src(i.test) and "error_handler" in src(i.test) for i in gtest), "exec.guard", db.where(ex), "handling is not limited to templates with format_exceptions/error_handler", "only when format_exceptions or error_handler")
     re_ = db.func("runtime._render_error")
